@@ -10,3 +10,4 @@ import RzmqModel.Props.C06
 #print axioms Rzmq.C06.abstract_mechanism_not_skipped
 #print axioms Rzmq.C06.plain_source_shape
 #print axioms Rzmq.C06.unset_credential_admits_nobody
+#print axioms Rzmq.C06.mechanism_and_command_names_are_the_rfc_ones
